@@ -36,3 +36,9 @@ MANIFEST = dict(
     technique="Coq proofs over traces (induction on fuel, trace-shape lemmas) + fault-injection replay of the real clients with per-request execution logs",
     category="proof",
 )
+
+# integrator's addition: executions per call are also counted on the wire by the ownership observer of C33 (a buffer or command
+# recycled while still queued makes the writer send another call's commands a second time: seeded change C03-1)
+from props import C33 as _c33  # noqa: E402
+SPEC["observers"] = list(SPEC["observers"]) + [dict(o, corpus=False) for o in _c33.SPEC["observers"] if o["cmd"] == "obs_recycle"]
+SPEC["rule"] += "; obs_recycle (docs/bld.md): single and cluster clients with calls abandoned (cancel / deadline) while queued behind a parked write, fresh calls built from the pools, then the gate opens; every frame the server receives was built by a live call and arrives at most once"
